@@ -325,7 +325,7 @@ func (hs *serverHandshakeState) checkForResumption() bool {
 	// 检查缓存中是存在
 	var ok bool
 	hs.sessionState, ok = hs.c.config.SessionCache.Get(sessionKey)
-	if !ok {
+	if !ok || hs.sessionState == nil {
 		return false
 	}
 
